@@ -5,11 +5,45 @@ from . import c01, l1per
 
 DEC = {"der": "ber", "uper": "uper", "oer": "oer", "xer": "xer", "cxer": "xer"}
 
+DIRECTED_MODULE = ("XD DEFINITIONS AUTOMATIC TAGS ::= BEGIN XUtf ::= UTF8String XIa5 ::= IA5String XBmp ::= BMPString "
+                   "XUni ::= UniversalString XGt ::= GeneralizedTime XBool ::= BOOLEAN XInt ::= INTEGER XNull ::= NULL "
+                   "XOct ::= OCTET STRING XBits ::= BIT STRING XEnum ::= ENUMERATED { red, green, blue-sky } END")
+
+def directed_xer(ctx):
+    """decoder inputs aimed at repaired findings (c01_xer.DIRECTED: numeric character references without digits / of value
+    zero - F152 was an assert -, white space and value tags named like the element inside primitive elements) and their
+    truncations, through the full pipeline (decode, print, validate, re-encode, free)"""
+    from .. import c01_xer
+    names = re.findall(r"(\w+) ::=", DIRECTED_MODULE.split("BEGIN", 1)[1])
+    b = bundle.Bundle("XD", DIRECTED_MODULE, names)
+    bad = []
+    try:
+        exe = b.build()
+        lines = []
+        for n, data in c01_xer.DIRECTED:
+            if n not in names: continue
+            for d in [data] + [data[:k] for k in range(max(0, len(data) - 12), len(data))]:
+                lines.append((f"@{n} dec xer {d.hex() if d else '-'}", len(d)))
+        outs, _ = ctx.run_c_parallel(exe, [l for l, _ in lines], timeout=300, env={"VERIF_LINE_TIMEOUT": "1"})
+        for (l, size), o in zip(lines, outs):
+            ctx.cov["evaluations"] += 1
+            mm = re.match(r"(ok|more|fail) (\d+) ", str(o))
+            if o == "HANG" or o is None or str(o).startswith("CRASH") or not mm or int(mm.group(2)) > size: bad.append((l, str(o)))
+            else: ctx.count_nontrivial(("directed-xer", hash(l)))
+        ctx.cov["predicate"]["directed_xer"] = {"cases": len(lines), "failures": len(bad)}
+    finally:
+        b.cleanup()
+    for l, o in bad[:3]:
+        ctx.violation(f"C04: decoding misbehaves on a directed XER input: {l[:160]} -> {o[:200]}",
+                      {"module": DIRECTED_MODULE, "type": l.split()[0][1:], "op": l, "c_output": o[:3000], "why": "crash / hang / inconsistent result"})
+
 def run(ctx):
     ctx.lean()
     from .. import c05_stream
     c05_stream.audit_once(ctx)      # stream_consumed_le / berDec_consumed_le / stream_rc_total: the C04 half of the streaming BER model
     gfind.replay_witnesses(ctx)
+    gfind.replay_fixed_witnesses(ctx)      # former witnesses of repaired findings must not reproduce
+    directed_xer(ctx)
     nb = 3 if ctx.quick else 30
     nvals = 3 if ctx.quick else 8
     mods = c01.gen_bundles(ctx, nb, allow_recursion=True)
